@@ -314,7 +314,8 @@ theorem Value.resolve_good {N : Nat} {t : SymTab} (ht : SymTab.Good N t) {v r : 
         subst h; exact hs
       | numeric a b c d =>
         simp only [Value.isAddress, Value.isNumeric, if_true, Bool.false_eq_true, if_false] at h
-        exact numericOfInt_good N h (by omega)
+        have hs' : a ≤ 65535 := hs
+        exact numericOfInt_good N h (by split <;> omega)
       | _ => simp [Value.isAddress, Value.isNumeric] at h
   | expr l r' op mode ae =>
     rw [resolve_expr_eq] at h
